@@ -42,6 +42,31 @@ CLAIMS['C02'] = dict(
          'point location cut to a contract stub; host glue (step_impl) sequencing mirrored by hand; termination of the event loop is outside.',
     technique=TECH_B + ' (bit-vector + IEEE mode, path-wise with cone-of-influence slicing)', design='3 (C02)')
 
+CLAIMS['C17'] = dict(
+    text='For one slot of an arbitrary symbolic core state CBMC shows, over all 2^12 selections, detector maps and filters: StepGatherExecutor<pre/post> '
+         'writes exactly the selected fields with the values of the track views, clears/filters as documented and touches nothing else; SimpleCaloExecutor '
+         'adds exactly the delivered deposit to the step\'s detector; action/step diagnostics increment exactly one counter.',
+    note='Callback fan-out over std::vector<SPStepInterface> (virtual calls), DetectorSteps::copy_steps and the run-time action order are outside the claim.',
+    technique=TECH_A, design='3 (C17)')
+CLAIMS['C05'] = dict(
+    text='One-step relations from an arbitrary symbolic slot state, IEEE bit-precise: step limits only ever lower the step; time never decreases; the step '
+         'counter increases by exactly one; kinetic energy never increases through energy loss and the stopped-particle transitions are exactly '
+         'killed+range or discrete; tracking cut kills. Every kernel writes only its own slot (frame condition).',
+    note='Propagation/MSC/pre-step/boundary kernels and the geometric half (volume contains position) are not covered yet; eloss handler is a contract stub.',
+    technique=TECH_B + ' (IEEE floating-point mode)', design='3 (C05)')
+CLAIMS['C01'] = dict(
+    text='Per-kernel energy balance, bit-precise: ElossApplier moves exactly the same amount from kinetic energy to deposition; InteractionApplier adds the '
+         'interaction deposit plus E (+2mc^2 per positron) of exactly the secondaries the production cut kills; TrackingCut deposits E (+2mc^2).',
+    note='Event-level balance is the (stated) sum over kernels/steps/tracks with C02; interactors (C04) and the real loss calculators (C14) are separate obligations.',
+    technique=TECH_B + ' (IEEE floating-point mode)', design='3 (C01)')
+CLAIMS['C16'] = dict(
+    text='StackAllocator one-step obligation from an arbitrary valid state (success iff the request fits, block disjoint from earlier elements, failure leaves '
+         'size/storage untouched, clear resets) and InteractionApplier on a failed interaction (nothing of the physics state changes, step limited to 0 with '
+         'the failure action).',
+    note='Initializer-capacity overflow path (CELER_VALIDATE in ExtendFromSecondaries/Primaries host glue) and CoreState::reset are not yet covered; '
+         'allocation counts <= 2^16; single-threaded model of atomic_add.',
+    technique=TECH_A + '; ' + TECH_B, design='3 (C16)')
+
 NOT_APPLICABLE = {
     'C07': 'quantifies over interleavings of host threads driving whole Steppers over shared_ptr/std::vector/OpenMP state: no installed engine '
            'models concurrent libstdc++ (CBMC C++ front end cannot parse it; own IR executors are single-threaded). See DESIGN.md C07.',
